@@ -615,6 +615,30 @@ def status_words():
     return rows
 
 
+def short_status_words():
+    """displayer/imp.rs `short_status_str` (unix arms): the word of a `TRY k …` line."""
+    src = strip_comments(read("nextest-runner/src/reporter/displayer/imp.rs"))
+    m = re.search(r"fn short_status_str\(result: ExecutionResult\) -> Cow<'static, str> \{\s*match result \{(.*?)\n    \}\n\}", src, re.S)
+    if not m: raise RuntimeError("displayer/imp.rs: short_status_str not found")
+    body = re.sub(r"\s+", " ", m.group(1)).strip()
+    body = re.sub(r"#\[cfg\(windows\)\] ExecutionResult::Fail \{ abort_status: Some\(AbortStatus::WindowsNtStatus\(_\)\) \| Some\(AbortStatus::JobObject\), leaked: _, \} => \{ \"ABORT\"\.into\(\) \} ", "", body)
+    pats = [
+        ("Fail/signal", r"#\[cfg\(unix\)\] ExecutionResult::Fail \{ abort_status: Some\(AbortStatus::UnixSignal\(sig\)\), leaked: _, \} => match crate::helpers::signal_str\(sig\) \{ Some\(s\) => (s)\.into\(\), None => format!\(\"(SIG) \{sig\}\"\)\.into\(\), \}, "),
+        ("Fail", r"ExecutionResult::Fail \{ abort_status: None, leaked: _, \} => \"([^\"]*)\"\.into\(\), "),
+        ("ExecFail", r"ExecutionResult::ExecFail => \"([^\"]*)\"\.into\(\), "),
+        ("Pass", r"ExecutionResult::Pass => \"([^\"]*)\"\.into\(\), "),
+        ("Leak", r"ExecutionResult::Leak => \"([^\"]*)\"\.into\(\), "),
+        ("Timeout", r"ExecutionResult::Timeout => \"([^\"]*)\"\.into\(\),"),
+    ]
+    rows = []; pos = 0
+    for key, rx in pats:
+        r = re.compile(rx).match(body, pos)
+        if not r: raise RuntimeError(f"displayer/imp.rs short_status_str: arm for {key} not recognised at `{body[pos:pos + 70]}`")
+        rows.append((key, "|".join(r.groups()))); pos = r.end()
+    if body[pos:].strip(): raise RuntimeError(f"displayer/imp.rs short_status_str: unrecognised arm `{body[pos:pos + 70]}`")
+    return rows
+
+
 def script_sequencing():
     """executor.rs / imp.rs: setup scripts run one at a time, in order, and before any test is queued."""
     ex = re.sub(r"\s+", " ", strip_comments(read("nextest-runner/src/runner/executor.rs")))
@@ -765,9 +789,12 @@ def group_lines(g):
         return ["/-- helpers.rs `signal_str`: the name shown for a signal number -/",
                 "def signalNames : List (Nat × String) := [" + ", ".join(f'({a}, "{b}")' for a, b in rows) + "]"]
     if g == "statuswords":
-        rows = status_words()
+        rows = status_words(); short = short_status_words()
         return ["/-- displayer/imp.rs `status_str`: the word a status line reports each kind of result with (a signal: `SIG<name>` or `ABORT SIG <n>`) -/",
-                "def statusWords : List (String × String) := [" + ", ".join(f'("{a}", "{b}")' for a, b in rows) + "]"]
+                "def statusWords : List (String × String) := [" + ", ".join(f'("{a}", "{b}")' for a, b in rows) + "]",
+                "",
+                "/-- displayer/imp.rs `short_status_str`: the word of a `TRY k …` line (a signal: its bare name `s`, or `SIG <n>`) -/",
+                "def shortStatusWords : List (String × String) := [" + ", ".join(f'("{a}", "{b}")' for a, b in short) + "]"]
     if g == "scripts":
         rows = script_sequencing()
         return ["/-- executor.rs / imp.rs: the sequencing of setup scripts, as written -/",
